@@ -1010,15 +1010,6 @@ def check_c18(tier, seed):
     b1 = build_harness(st, lib, "thr-pinned", ["common.c", "pin.c", "families.c", "h_thr.c"], wraps=["calloc", "free", "memcpy", "memmove", "memset", "signal", "sigaction"] + WRAP_PIN, extra_ld=[ctl], defs=["-DUSE_PIN"])
     for be in (0, 1):
         runs.append((b1, "pinned-be%d" % be, be))
-    per = {}
-    for binary, label, maxbe in runs:
-        args = ["--tier", tier, "--seed", str(seed), "--label", label, "--maxbe", str(maxbe)]
-        spec = {"sources": ["common.c", "pin.c", "families.c", "h_thr.c"], "special": "c18", "label": label, "maxbe": maxbe, "args": args}
-        m = Merged()
-        for res in run_sharded(binary, args, st, "thr-" + label, nshards=NCPU):
-            m.add(res, spec); merged.add(res, spec)
-        v.handle(m, make_replayer(binary, args))
-        per[label] = m.evaluations
     # structural part of "no mutable global state": no object of the library as the repository builds it has a writable
     # data section (.data.rel.ro* holds the const function tables and is read-only once relocated)
     ship = mkbuild("shipped").build(st)
@@ -1061,8 +1052,28 @@ def check_c18(tier, seed):
     for fn in sorted(set(undef) & NONREENTRANT):
         v.new.append({"sig": "C18/calls-non-reentrant-libc-function/%s" % fn, "case": "", "label": ship.name, "replay": None,
                       "detail": "%s (built by src/Makefile) calls %s(), which keeps state shared by all threads of the process" % (", ".join(sorted(undef[fn])), fn)})
-    # free-running ThreadSanitizer pass over the same operation bodies
-    tsan = tsan_pass(st, tier)
+    dynamic_error = None
+    tsan = {"reports": 0, "note": "not run"}
+    try:
+        per = {}
+        for binary, label, maxbe in runs:
+            args = ["--tier", tier, "--seed", str(seed), "--label", label, "--maxbe", str(maxbe)]
+            spec = {"sources": ["common.c", "pin.c", "families.c", "h_thr.c"], "special": "c18", "label": label, "maxbe": maxbe, "args": args}
+            m = Merged()
+            for res in run_sharded(binary, args, st, "thr-" + label, nshards=NCPU):
+                m.add(res, spec); merged.add(res, spec)
+            v.handle(m, make_replayer(binary, args))
+            per[label] = m.evaluations
+        # free-running ThreadSanitizer pass over the same operation bodies
+        tsan = tsan_pass(st, tier)
+    except EngineError as e:
+        # a library with hidden state can take the explorer itself down (an abort inside the C library, a replay that is
+        # not deterministic); when the structural part has already decided the property that is reported, otherwise
+        # the check has no verdict
+        if not v.new:
+            raise
+        dynamic_error = str(e)[:600]
+        per = locals().get("per", {})
     points = sum(val for k, val in merged.notes.items() if k.startswith("scheduling_points_executed"))
     wtot = sum(val for k, val in merged.notes.items() if k.startswith("conflict_granules_total"))
     combos = sum(val for k, val in merged.notes.items() if k.startswith("combinations["))
@@ -1073,7 +1084,7 @@ def check_c18(tier, seed):
                    "with W empty there is one equivalence class per combination and one execution decides it; states = thread combinations explored, transitions = executions run under the scheduler. "
                    "Positive control (harness-owned lost update, needs one preemption) must be found in every run. Free-running ThreadSanitizer pass over the same bodies on real threads." % (3 if tier == "thorough" else 2),
            "samples": merged.samples, "notes": merged.notes, "executions_per_variant": per, "conflict_granules": int(wtot), "scheduling_points": int(points),
-           "tsan_pass": tsan, "builds": [lib.describe(), ship.describe()],
+           "tsan_pass": tsan, "dynamic_part_error": dynamic_error, "builds": [lib.describe(), ship.describe()],
            "section_audit": {"sections_seen": nsec, "objects_with_writable_static_data": sorted(secs), "rule": "objdump -h of every object of libskinny.a as built by src/Makefile: .data*, .bss*, .tdata*, .tbss* must be empty (.data.rel.ro* excepted), no common symbols; nm: no import of a C library function with process-wide state (strtok, rand, localtime, strerror, setenv, signal, ...)",
                              "libc_imports": sorted(k for k in undef if not k.startswith(("skinny", "_skinny", "mantis", "_mantis")))}}
     if tsan.get("reports", 0) > 0:
